@@ -157,6 +157,25 @@ where
     preceded(many0(alt((comment, into_inner(multispace1)))), inner)
 }
 
+/// Matches a keyword that consists of several words, such as `OCTET STRING`.
+/// The words must be separated by white-space or comments, but not necessarily by a single space.
+pub fn keyword<'a>(
+    keyword: &'static str,
+) -> impl Parser<Input<'a>, Output = Input<'a>, Error = ErrorTree<'a>> {
+    recognize(move |mut input: Input<'a>| {
+        for (index, word) in keyword.split(' ').enumerate() {
+            input = if index == 0 {
+                tag(word).parse(input)?.0
+            } else {
+                preceded(many1(alt((comment, into_inner(multispace1)))), tag(word))
+                    .parse(input)?
+                    .0
+            };
+        }
+        Ok((input, ()))
+    })
+}
+
 pub fn in_parentheses<'a, F>(
     inner: F,
 ) -> impl Parser<Input<'a>, Output = F::Output, Error = F::Error>
